@@ -10,6 +10,8 @@ pub struct ExIoErrorKind(io::ErrorKind);
 pub struct ExBufReader<R: ?Sized>(BufReader<R>);
 #[verifier::external_trait_specification]
 pub trait ExRead { type ExternalTraitSpecificationFor: Read; }
+#[verifier::external_trait_specification]
+pub trait ExBufRead: Read { type ExternalTraitSpecificationFor: BufRead; }
 
 pub uninterp spec fn wire<R: ?Sized>(r: &BufReader<R>) -> Seq<u8>;
 pub uninterp spec fn fault_free<R: ?Sized>(r: &BufReader<R>) -> bool;
@@ -136,7 +138,7 @@ pub assume_specification<T, E, U, F: FnOnce(T) -> std::result::Result<U, E>>[ st
 pub fn vp_slice_position<F: FnMut(&u8) -> bool>(s: &[u8], pred: F) -> (r: Option<usize>)
     requires forall|x: &u8| pred.requires((x,)),
     ensures
-        r matches Some(i) ==> i < s@.len() && pred.ensures((&s@[i as int],), true)
+        r matches Some(i) ==> i < s@.len() && i < usize::MAX && pred.ensures((&s@[i as int],), true)
             && forall|j: int| 0 <= j < i ==> pred.ensures((&#[trigger] s@[j],), false),
         r is None ==> forall|j: int| 0 <= j < s@.len() ==> pred.ensures((&#[trigger] s@[j],), false),
 { s.iter().position(pred) }
